@@ -183,6 +183,18 @@ fn exec(line: &str) -> String {
                             i += m;
                         }
                     }
+                    "rmerge3" => {
+                        // the running total is the RIGHT operand of every merge: t = chunk; t += total; total = t
+                        let mut i = 0;
+                        while i < cnt {
+                            let mut part = utils::KahanSum::<$ty>::default();
+                            let m = core::cmp::min(3, cnt - i);
+                            for _ in 0..m { part += x; }
+                            part += k;
+                            k = part;
+                            i += m;
+                        }
+                    }
                     _ => { for _ in 0..cnt { k += x; } }
                 }
                 hx(k.value() as f64)
